@@ -21,11 +21,15 @@ var (
 		"a.x.com:8080", "*.x.com:8080", "x.com:8080", "",
 		// written with the scheme's default port; wildcards by '?', class and alternatives; a pattern that is not well formed
 		"a.x.com:80", "x.com:443", "b.x.com:80", "*.x.com:80", "?.x.com", "[ab].x.com", "{a,b}.x.com", "a.x.co?", "{x,ax}.com", "a.[w-y].com", "x.com{", "a.x.com{", "*.x.com{"}
-	c03ReqHosts  = []string{"a.x.com", "b.x.com", "a.b.x.com", "c.a.b.x.com", "x.com", "ax.com", "www.y.org", "y.org", "z.y.org", "q.net", "a.q.com", ""}
-	c03Ports     = []string{"", "", ":80", ":443", ":8080", ":9"}
-	c03Paths     = []string{"/", "/a", "/a/", "/a/b", "/a/b/c", "/ab", "/A/b", "/b", "/B", "/FOO/bar", "/foo"}
+	c03ReqHosts = []string{"a.x.com", "b.x.com", "a.b.x.com", "c.a.b.x.com", "x.com", "ax.com", "www.y.org", "y.org", "z.y.org", "q.net", "a.q.com", "",
+		"a.com", "a..com", "com"} // a.com: too short for 'a.*.com' (prefix and suffix would have to overlap)
+	c03Ports = []string{"", "", ":80", ":443", ":8080", ":9"}
+	// the last three: letters whose lower-case form has another encoded length (U+0130, KELVIN SIGN U+212A) and a plain non-ASCII one
+	c03Paths     = []string{"/", "/a", "/a/", "/a/b", "/a/b/c", "/ab", "/A/b", "/b", "/B", "/FOO/bar", "/foo", "/\u0130stanbul", "/\u212Aelvin/a", "/\u00dcber"}
+	c03IPv6Hosts = []string{"[2001:db8::1]", "[2001:db8::1]:8080", "[::1]"} // literal names: only with host globbing disabled ('[' opens a class otherwise)
 	c03GlobPaths = []string{"/*", "/a*", "/a/*", "/a/b*", "/a/b/*", "/ab*", "/A/b*", "/b*", "/a/b/c", "/a/{", "/a{", "/{"}
-	c03ReqPaths  = []string{"/", "/a", "/a/", "/a/b", "/a/b/c", "/a/b/c/d", "/ab", "/abc", "/A/b", "/A/B", "/b", "/B/x", "/c", "/foo/bar", "/FOO/bar/x", "/Foo", ""}
+	c03ReqPaths  = []string{"/", "/a", "/a/", "/a/b", "/a/b/c", "/a/b/c/d", "/ab", "/abc", "/A/b", "/A/B", "/b", "/B/x", "/c", "/foo/bar", "/FOO/bar/x", "/Foo", "",
+		"/istanbul/map", "/\u0130STANBUL", "/kelvin/a/b", "/Kelvin/a", "/\u212Aelvin/a/x", "/\u00fcber/x", "/\u00dcBER"}
 )
 
 type c03Case struct {
@@ -47,6 +51,9 @@ func genC03(r *rand.Rand) *c03Case {
 	seen := map[string]bool{}
 	for i := 0; i < n; i++ {
 		h := choose(r, c03HostPats)
+		if cs.NoGlob && r.Intn(6) == 0 {
+			h = choose(r, c03IPv6Hosts)
+		}
 		p := choose(r, c03Paths)
 		if cs.Matcher == "glob" {
 			p = choose(r, c03GlobPaths)
@@ -59,6 +66,9 @@ func genC03(r *rand.Rand) *c03Case {
 	}
 	for j := 0; j < 24; j++ {
 		h := choose(r, c03ReqHosts)
+		if cs.NoGlob && r.Intn(6) == 0 {
+			h = choose(r, []string{"[2001:db8::1]", "[2001:DB8::1]", "[::1]"})
+		}
 		if h != "" {
 			h = randCase(r, h) + choose(r, c03Ports)
 		}
